@@ -23,7 +23,10 @@ ENTRY(h_c10){
     Algo algo(cfg, TbfDefaultLastLevelPeriodic);
     TopAlgo top(cfg, k);
     algo.execute(tree, TbfAlgorithmUtils::TbfBottomToTopStages);
-    top.execute(tree);
+    if(irsym_choose(2) == 0) top.execute(tree);
+    else{      // the top-tree executor driven flag by flag must give what one full call gives
+        top.execute(tree, TbfAlgorithmUtils::TbfM2M); top.execute(tree, TbfAlgorithmUtils::TbfM2L); top.execute(tree, TbfAlgorithmUtils::TbfL2L);
+    }
     algo.execute(tree, TbfAlgorithmUtils::TbfTransferStages);
     algo.execute(tree, TbfAlgorithmUtils::TbfTopToBottomStages);
     // repetition count / interval formulas agree with each other
